@@ -145,7 +145,7 @@ func init() {
 			obs = append(obs, c.Panics(c.Verif, roots, in, in)...)
 			obs = append(obs, c.TagDispatch("nbt", "nbt/dynbt")...)
 			obs = append(obs, c.ListProgress()...)
-			obs = append(obs, c.rootObs("R-TLG", "nbt.(*Decoder).Decode", "nbt.(*Decoder).unmarshal", "nbt.(*Decoder).rawRead", "nbt/dynbt.(*Value).UnmarshalNBT", "nbt.(*StringifiedMessage).UnmarshalNBT", "nbt.(*RawMessage).UnmarshalNBT")...)
+			obs = append(obs, c.rootObs("R-TLG", "nbt.(*Decoder).Decode", "nbt/dynbt.(*Value).UnmarshalNBT", "nbt.(*StringifiedMessage).UnmarshalNBT", "nbt.(*RawMessage).UnmarshalNBT")...)
 			return obs
 		},
 	}
